@@ -38,6 +38,13 @@ func (g *Gen) instr(in ssa.Instruction, st *State, reach string) bool {
 		g.ret(in, st, reach)
 		return false
 	case *ssa.Panic:
+		if mi, ok := in.X.(*ssa.MakeInterface); ok {
+			if c, ok := mi.X.(*ssa.Const); ok && c.Value != nil && strings.Contains(c.Value.ExactString(), "blocking select matched no case") {
+				// artefact of go/ssa's lowering of a blocking select: the index Select returns always
+				// names one of the cases, the final else branch is dead code
+				return false
+			}
+		}
 		if !g.con.MayPanic {
 			g.safeObl("safe-panic", "false", reach, in.Pos(), "explicit panic reachable")
 		}
